@@ -21,8 +21,9 @@
 //! Independent oracles evaluated on the implementation's output:
 //!  * TopK: exactly min(k,n) entries, sorted descending by total order, a sub-multiset of the
 //!    input, and its score multiset equals the min(k,n) largest of the input by total order
-//!    (failure tags: `(nan)` input has a NaN, `(signed-zero)` only the -0/+0 order is off,
-//!    `(order)` anything else);
+//!    (failure tags: `(nan)` / `(signed-zero)` only when the output is exactly the scalar IEEE-`>`
+//!    reference run — input with a NaN, resp. NaN-free and numerically the top-k — `(order)` for
+//!    anything else);
 //!  * TopP: non-empty for non-empty input, sub-multiset, score multiset equals the shortest
 //!    prefix of the descending-sorted input whose exact (f64) sum reaches max(p, MIN_POSITIVE);
 //!  * Sort: stable descending permutation;
@@ -196,23 +197,57 @@ fn oracle_topk(k: usize, input: &[Item], out: &[Item]) -> Option<String> {
     keys.truncate(m);
     let got: Vec<i64> = out.iter().map(|x| tkey(x.1)).collect();
     if got != keys {
-        let why = if input.iter().any(|x| is_nan(x.1)) {
-            "(nan)"
-        } else {
-            let mut nk: Vec<i64> = input.iter().map(|x| nkey(x.1)).collect();
-            nk.sort_by(|a, b| b.cmp(a));
-            nk.truncate(m);
-            let mut gn: Vec<i64> = out.iter().map(|x| nkey(x.1)).collect();
-            gn.sort_by(|a, b| b.cmp(a));
-            if gn == nk {
-                "(signed-zero)"
+        // The two known deviations are tagged only when the output is EXACTLY what the documented
+        // comparison semantics give (running top-k updated with the IEEE test `logit > kth`, which is
+        // false for NaN operands and for +0.0 vs -0.0); anything else — e.g. a misranked finite value
+        // in an input that merely contains a NaN — is a plain `(order)` failure.
+        let has_nan = input.iter().any(|x| is_nan(x.1));
+        let why = if out == ref_topk_ieee(k, input).as_slice() {
+            if has_nan {
+                "(nan) output equals the IEEE-> reference run;"
             } else {
-                "(order)"
+                let mut nk: Vec<i64> = input.iter().map(|x| nkey(x.1)).collect();
+                nk.sort_by(|a, b| b.cmp(a));
+                nk.truncate(m);
+                let mut gn: Vec<i64> = out.iter().map(|x| nkey(x.1)).collect();
+                gn.sort_by(|a, b| b.cmp(a));
+                if gn == nk {
+                    "(signed-zero) output equals the IEEE-> reference run and is numerically the top-k;"
+                } else {
+                    "(order)"
+                }
             }
+        } else {
+            "(order)"
         };
-        return Some(format!("topk:not-k-largest {why} kept scores are not the min(k,n) largest by total order"));
+        return Some(format!(
+            "topk:not-k-largest {why} kept scores are not the min(k,n) largest by total order: kept [{}]",
+            hcommon::join(out.iter().map(|x| format!("{:e}", f32::from_bits(x.1))), ",")
+        ));
     }
     None
+}
+
+/// Scalar reference for the documented update rule: sorted first k, then each further candidate
+/// replaces the k-th entry iff `logit > kth_logit` in IEEE arithmetic (stable re-sort by total order).
+fn ref_topk_ieee(k: usize, input: &[Item]) -> Vec<Item> {
+    let k = k.min(input.len());
+    let mut top = ref_sort(&input[..k]);
+    if k == 0 {
+        return top;
+    }
+    for x in &input[k..] {
+        let kth = f32::from_bits(top[k - 1].1);
+        if f32::from_bits(x.1) > kth {
+            top.pop();
+            let mut pos = top.len();
+            while pos > 0 && tkey(top[pos - 1].1) < tkey(x.1) {
+                pos -= 1;
+            }
+            top.insert(pos, *x);
+        }
+    }
+    top
 }
 
 /// Stable descending sort by total order, written out (insertion sort).
@@ -295,10 +330,19 @@ fn oracle_topp(pbits: u32, input: &[Item], out: &[Item]) -> Option<String> {
     let mut got: Vec<i64> = out.iter().map(|x| tkey(x.1)).collect();
     got.sort_by(|a, b| b.cmp(a));
     if got != want {
-        let tag = if pbits == ONE { "topp:p1-not-minimal" } else { "topp:not-minimal-prefix" };
+        // known deviation only: p == 1.0 returns the input itself, unchanged
+        if pbits == ONE && out == input {
+            return Some(format!(
+                "topp:p1-keeps-everything kept {} of {} candidates (input returned unchanged), shortest descending prefix reaching the threshold has {}",
+                out.len(),
+                input.len(),
+                kmin
+            ));
+        }
         return Some(format!(
-            "{tag} kept {} candidates, shortest descending prefix reaching the threshold has {}",
+            "topp:not-minimal-prefix kept {} of {} candidates, shortest descending prefix reaching the threshold has {}",
             out.len(),
+            input.len(),
             kmin
         ));
     }
@@ -620,7 +664,7 @@ impl Ctx {
         });
         // the composition of the individually constructed filters, with per-step oracles
         let mut cur: Result<Vec<Item>, String> = Ok(xs.to_vec());
-        let mut step_fail: Option<String> = None;
+        let mut step_fails: Vec<String> = Vec::new();
         let mut topp_inexact = false;
         for (i, s) in specs.iter().enumerate() {
             if let Ok(v) = &cur {
@@ -632,8 +676,10 @@ impl Ctx {
                 }
                 let r = hcommon::catch(|| from_logits(&s.apply(to_logits(&input), &prev)));
                 if let Ok(o) = &r {
-                    if step_fail.is_none() {
-                        step_fail = oracle_step(s, &input, o).map(|f| format!("chain-step {i} ({}): {f}", s.show()));
+                    // every failing step is reported (on its own line), so a known deviation in
+                    // one step cannot hide a different failure in another
+                    if let Some(f) = oracle_step(s, &input, o) {
+                        step_fails.push(format!("chain-step {i} ({}): {f}", s.show()));
                     }
                 }
                 cur = r;
@@ -652,7 +698,7 @@ impl Ctx {
                 let f = if o != c {
                     Some(format!("chain:not-composition chain={} composition={}", show_items(o), show_items(c)))
                 } else {
-                    step_fail
+                    step_fails.pop()
                 };
                 (show_items(o), f)
             }
@@ -668,6 +714,9 @@ impl Ctx {
             (Err(msg), Ok(_)) => ("panic".to_string(), Some(format!("chain:not-composition chain panicked ({msg}) but the composition did not"))),
             (Ok(o), Err(msg)) => (show_items(o), Some(format!("chain:not-composition composition panicked ({msg}) but the chain did not"))),
         };
+        for f in step_fails {
+            self.out.case(&format!("# {req}"), &ans, Some(&f), false);
+        }
         self.emit(&req, &ans, fail, modelled, specs.len() >= 2 && xs.len() >= 2);
     }
 
